@@ -63,6 +63,9 @@ pub use self::types::QoS;
 #[cfg(kani)]
 #[path = "../../weave/src/payload.rs"]
 mod payload;
+// how the in-flight limiter classifies inbound items (both server dispatchers)
+#[cfg(kani)]
+include!("../../weave/gen_sized.rs");
 // io.rs: the response re-sequencing state, extracted item by item (see lib/weave.py gen_io_state)
 #[cfg(kani)]
 mod io_state {
